@@ -12,11 +12,13 @@ cp $SRC/$DEMO $OUT/$DEMO
 RAW=$(/verif/tools/confirm_seed.sh $PROP-$X $OUT/patch.diff $OUT/$DEMO "$DEST" "$CMD" --full 2>&1)
 CONF=$(echo "$RAW" | grep "^SEED-RESULT" | sed 's/^SEED-RESULT //')
 REGR=$(echo "$RAW" | grep "suite-regression" | tr '\n' ';')
-DET=$(timeout 1800 /verif/tools/mutcheck.sh $OUT/patch.diff $PROP 2>&1 | grep -v "^proptest\|KNOWN")
-rc=$?
-python3 - "$PROP" "$X" "$DEST" "$CMD" "$CONF" "$OUT" "$REGR" <<PY
+timeout 1800 /verif/tools/mutcheck.sh $OUT/patch.diff $PROP > $OUT/.mutcheck.out 2>&1
+MRC=$?
+DET=$(grep -v "^proptest\|KNOWN" $OUT/.mutcheck.out)
+rm -f $OUT/.mutcheck.out
+python3 - "$PROP" "$X" "$DEST" "$CMD" "$CONF" "$OUT" "$REGR" "$MRC" <<PY
 import json,sys,subprocess
-prop,x,dest,cmd,conf,out,regr=sys.argv[1:8]
+prop,x,dest,cmd,conf,out,regr,mrc=sys.argv[1:9]
 det='''$DET'''
 try: c=json.loads(conf)
 except Exception: c={"raw":conf}
@@ -29,9 +31,10 @@ meta={
  "repo_head_when_confirmed":subprocess.run(['git','-C','/repo','rev-parse','--short','HEAD'],capture_output=True,text=True).stdout.strip(),
  "check_run":f"tools/mutcheck.sh seeded/{prop}-{x}/patch.diff {prop}  (quick tier, VERIF_SEED=0, scratch worktree)",
  "suite_tests_not_passing_with_patch":regr,
- "detected":bool(viol),
+ "mutcheck_exit":int(mrc),
+ "detected":bool(viol) and int(mrc)==1,
  "detection":[v[:400] for v in viol[:6]],
 }
 json.dump(meta,open(out+'/meta.json','w'),indent=1)
-print(f"{prop}-{x}: applies={c.get('applies')} demo clean/patched rc={c.get('demo_rc_without_patch')}/{c.get('demo_rc_with_patch')} suite-regressions={c.get('suite_stable_tests_not_passing_with_patch')} detected={bool(viol)} {regr}")
+print(f"{prop}-{x}: applies={c.get('applies')} demo clean/patched rc={c.get('demo_rc_without_patch')}/{c.get('demo_rc_with_patch')} suite-regressions={c.get('suite_stable_tests_not_passing_with_patch')} detected={bool(viol) and int(mrc)==1} mutcheck-exit={mrc} {regr}")
 PY
